@@ -495,6 +495,20 @@ func ruleSharedStateInventory(c *Ctx) {
 			}
 		}
 	}
+	// package-level synchronisation objects are shared state as well
+	for _, pk := range p.Pkgs {
+		sc := pk.Types.Scope()
+		for _, n := range sc.Names() {
+			v, ok := sc.Lookup(n).(*types.Var)
+			if !ok {
+				continue
+			}
+			if nt, ok := v.Type().(*types.Named); ok && nt.Obj().Pkg() != nil && (nt.Obj().Pkg().Path() == "sync" || nt.Obj().Pkg().Path() == "sync/atomic") {
+				c.Oblige("X.state", false, v.Pos(), shortPkg(pk.PkgPath), "package-level shared state "+n,
+					"a package-level pool/map/atomic is shared by every call and every instance and must be classified and covered by a clearing/copy rule", nil)
+			}
+		}
+	}
 	// mutable globals read in decode/encode
 	writers := p.globalWriters()
 	var gl []string
